@@ -216,6 +216,10 @@ def run(ctx):
         ctx.floor('C12.2', n, 1, 'matcher store in ' + cmd)
     check_writers(ctx, 'C12.2', CTRL, 'display_matcher', [('Controller.__init__', lambda w: w.fresh and norm(w.stmt.value) == 'display_matcher'), ('Controller.filter_command', None)], floor=2)
     check_writers(ctx, 'C12.2', CTRL, 'stop_matcher', [('Controller.__init__', lambda w: w.fresh and norm(w.stmt.value) == 'stop_matcher'), ('Controller.break_point_command', None)], floor=2)
+    # each matcher changes only by its own command storing a new object: neither object is handed to a position that is mutated in place
+    # (join() rewrites the lists of its first argument, simplify() those of its receiver)
+    _cm.check_not_mutated_in_place(ctx, 'C12.2', 'display_matcher', 'the current filter')
+    _cm.check_not_mutated_in_place(ctx, 'C12.2', 'stop_matcher', 'the current breakpoint matcher')
 
     # ---- C12.3 initial matchers are simplified ---------------------------------------------------------------
     f_pa = repo.func('arguments.parse_args')
